@@ -228,6 +228,18 @@ def rewrite(text, log, keep_derives=None, drop_derives=()):
     for m in re.finditer(r'\bconst\s+([A-Z_0-9a-z]+)\s*:\s*(&\s*str)\b', msk):
         log.append(('D2', "const &str -> &'static str: " + m.group(1), ln(m.start())))
         edits.append((m.start(2), m.end(2), "&'static str"))
+    # D23: byte-string literal b"abc" -> &[0x61u8, 0x62u8, 0x63u8] (Verus does not model the contents of byte-string literals)
+    for m in re.finditer(r'\bb"', msk):
+        q = m.end()
+        e = text.index('"', q)
+        while text[e - 1] == '\\':
+            e = text.index('"', e + 1)
+        body = text[q:e]
+        if '\\' in body or any(ord(c) > 126 or ord(c) < 32 for c in body):
+            raise ExtractError('D23: byte-string literal with escapes is not supported')
+        rep = '&[' + ', '.join('0x%02xu8' % ord(c) for c in body) + ']'
+        log.append(('D23', 'byte-string literal b"%s" spelled as an array literal' % body, ln(m.start())))
+        edits.append((m.start(), e + 1, rep))
     # D3: closure parameter `_`
     cnt = 0
     for m in re.finditer(r'\|\s*_\s*\|', msk):
